@@ -66,9 +66,9 @@ def run(ctx):
             for _ in range(rng.choice([0, 1, 2, 3, 5])):
                 k = rng.choice("laf")
                 if k == "f":
-                    v = rng.choice([0, 5, 123])
-                    setters.append("f:%d" % v)
-                    state["f"] = "" if v == 0 else "%dutok" % v
+                    v = rng.choice([0, 5, 123, "0atom+5osmo", "0zero", "7a+0b"])
+                    setters.append("f:%s" % v)
+                    state["f"] = v if isinstance(v, str) else ("" if v == 0 else "%dutok" % v)
                 else:
                     v = rng.choice(["x", "my label", "admin1", ""])
                     setters.append("%s:%s" % (k, v.encode().hex()))
